@@ -389,6 +389,35 @@ pub fn c04(g: &mut G) {
             let h = g.rng.pick(&hi).clone();
             g.emit(format!("stream {} {} {}", d, l, h));
         }
+        // user automata that override `accept_eof`: the hook moves the end-of-key decision to another
+        // state for some states; hints sound with respect to matches with AND without the hook
+        for t in dfas.iter().skip(s % 3).step_by(if g.thorough { 2 } else { 5 }) {
+            let n = t.nstates;
+            let eof: Vec<Option<usize>> =
+                (0..n).map(|_| if g.rng.chance(1, 2) { Some(g.rng.below(n as u64) as usize) } else { None }).collect();
+            let mut probe = t.clone();
+            for x in 0..n {
+                probe.matching[x] = t.matching[x] || eof[x].map_or(false, |e| t.matching[e]);
+            }
+            let (cr, _) = crate::auts::sound_hint_sets(&probe);
+            let mut te = t.clone();
+            for x in 0..n {
+                te.can[x] = cr[x] || g.rng.chance(1, 2);
+                te.will[x] = false;
+            }
+            let d = crate::auts::eof_spec(&te, &eof);
+            g.emit(format!("streamst {} - -", d));
+            for _ in 0..2 {
+                let l = g.rng.pick(&lo).clone();
+                let h = g.rng.pick(&hi).clone();
+                g.emit(format!("streamst {} {} {}", d, l, h));
+            }
+            // inside a combinator the hook is NOT forwarded by the crate: plain language again
+            if g.rng.chance(1, 4) {
+                g.emit(format!("stream co({}) - -", d));
+                g.emit(format!("stream un({},str:6162) - -", d));
+            }
+        }
         for t in &dfas {
             g.emit(format!("streamst {} - -", t.spec()));
             for _ in 0..per {
